@@ -8,6 +8,25 @@ CHECKS = {
    text="TLC enumerates every operator x operand tuple of a bounded value domain (ints incl. boundaries of the model, dyadic floats with signed zero/NaN/Inf, strings, nested arrays, nil, function), checks the documented laws (symmetry of ==, != its negation, consistency of < > <= >=, int==float, zero division, slicing and concatenation laws, nil always an error) as invariants of CalcValues.tla, and each tuple with its specified result is replayed on the exported methods of types/value and compared bit-exactly. Exhaustive over the stated finite domain; 64-bit wrap-around and non-dyadic rounding are out of model.",
    note="Trusted: TLC's evaluation of CalcValues.tla; my reading of the README for the operator tables; exact decoding of dyadic floats. Not covered: 64-bit overflow, rounding of non-dyadic results, int/float comparison above 2^53.", ref="DESIGN.md 5 C11"),
 }
+
+SESS_NOTE = "Trusted: CalcSem.tla/CalcValues.tla as evaluated by TLC (the oracle, written from the README, sharing nothing with the implementation); the documented-grammar printer (its inverse by the real parser is guarded per session, property C07); the verif hooks only observe. Unspecified behaviour (ints >= 2^30, non-dyadic floats, README-silent corners) is only checked for no-crash. Known findings D11/D12 are matched by named trigger predicates."
+def sem(ref, text, tech=None):
+    return dict(cat="model_checking", text=text, note=SESS_NOTE, ref=ref,
+                tech=tech or "TLA+ definitional semantics (CalcSem) run by TLC in trace mode as judge of recorded executions of the real pipeline; bounded enumerations plus seeded generators")
+CHECKS.update({
+ "C01": sem("DESIGN.md 5 C01", "Every session (enumerated expression x context products, depth-2 expressions, seeded random typed sessions with closures, generators, loops) is run through the real Parse/STRewrite/ByteCode/Run pipeline on one VM; the recorded value, output and error class of every statement is accepted only if CalcSem, the small-step definitional semantics evaluated by TLC, can follow it; a divergence is printed with both sides."),
+ "C02": sem("DESIGN.md 5 C02", "Generator algebra: eleven base generators (builtins, while/yield, recursive, closure-capturing, helper-that-yields, value-of-yield, conditional, empty) composed by map/filter/zip/chain/nest/value-using-map to depth 3, x six loop bodies x five placements, plus three-iterator lock-step with unequal lengths and naked yield; output probes in generators and bodies make the interleaving observable; TLC judges every recorded run against CalcSem's coroutine rules."),
+ "C03": sem("DESIGN.md 5 C03", "Each session defines one side-effect-free function (arithmetic, recursion, closure factories, captured-variable update after a deep call, generator loops, 5/130/200-local frames, random bodies), runs a history (loops, deep recursion that grows the stacks, runtime errors, 40 statements) and calls it with the same argument from nine dynamic placements; every call must return the value CalcSem specifies, hence the same value each time."),
+ "C04": sem("DESIGN.md 5 C04", "Scoping shapes (variable kind x access pattern x closure level x function-value flow x frame width 1/3/130) with write probes of caller variables and globals before and after every call, plus random closure-heavy sessions; resolution is specified by a TLA+ Resolve operator working on names in traversal order, frames are objects with identity in the specification, closures leaving their definer are frozen (also inside arrays)."),
+ "C05": sem("DESIGN.md 5 C05", "Adversarial enumeration (17 binary operators x 81 type pairs x operand sources, unary/index/slice/element/condition/call-target/arity positions, extreme literals and shift counts, 17 statement forms in tail/body/branch positions) and random ill-typed sessions; the verdict is that the real run ends with a value or a documented runtime error: panics are recovered and reported with signature, hangs are detected by a deterministic instruction budget through the step hook; CalcSem's totality on the same programs says value-or-error is the only outcome the language admits.", tech="TLA+ semantics (CalcSem) totality + outcome classes checked by TLC on recorded executions; adversarial enumeration and seeded fuzzing of the real pipeline with panic/hang capture"),
+ "C08": sem("DESIGN.md 5 C08", "Sessions of 20+ statements on one VM with 1-3 injected failures (every error class at top level / call depth 3 / loop body / suspended generator / generator in generator / read error / parse errors, adjacent failures included); every later statement and a probe of all globals must match CalcSem, whose only inter-statement state is the globals; twin sessions (failure replaced by its completed assignments) are run too and the twin theorem is checked on the specification's own observations; residue is compared after every item."),
+ "C09": sem("DESIGN.md 5 C09", "After every statement the real (sp, call frames, closure stack, live iterator contexts, ip gap) read through the verif accessors must be zero, as CalcSem's NoResidue invariant (checked by TLC on every session) says; statement forms in used/discarded/tail/returning/file-mode positions, loops whose body ends in each form, early return from loops nested 1-3 deep; for loop pairs with n and 2n iterations whose specified continuation depth is equal, the real peak stack pointer (step hook) and stack allocation must be equal."),
+ "C10": sem("DESIGN.md 5 C10", "Histories of 2-12 array/string operations over four variables that share structure (slices, slices of slices, append to a slice, concatenation, nesting, computed literals, passing to functions, iteration, capture in closures, literals in loops and recursive functions); after every operation toa() of every variable, of the captured value and of the program's literals must equal CalcSem's, where values are mathematical objects and cannot be mutated."),
+ "C12": sem("DESIGN.md 5 C12", "The full product of expressions (depth <= 2 over nine atoms, all operators) x 30 embedding contexts that select different code-generation strategies, plus the rewrite pairs named in the property (increment forms, e op e vs t=e;t op t for 17 operators, if !c vs swapped branches, boolean and non-boolean conditions in seven positions); every placement must produce the observation CalcSem specifies, so two placements of one expression cannot disagree."),
+ "C17": sem("DESIGN.md 5 C17", "Built-ins are specified by contract in CalcSem/CalcValues (Render for toa/write, Aton on the documented forms, fromto/elems/indices as the README's definitions, read as a queue of lines); vectors: 23 values through toa/write, aton(toa(n))==n for -1000..1000, +-2^k+-1 (k<30) and 48 dyadic floats, 20 aton spellings, fromto for all -3<=a,b<=4 and ill-typed arguments, elems/indices over every type, arity errors, 0-4 read() calls in five interleavings against eight piped inputs."),
+ "C19": sem("DESIGN.md 5 C19", "On every raised error CalcSem builds an abstract report (class, failing operation, Abbrev-rendered operand values, per context the active calls innermost first with call-site names and current parameter values, forked-from activation last); the real stdout after RUNTIME ERROR is parsed into the same structure and compared by TLC (opcode family, operand text incl. TMP suffix forms, frames per context); 14 failing operations x 10 dynamic positions plus random failing sessions."),
+})
+
 hooks = subprocess.run(["git", "-C", "/repo", "log", "--format=%H %s"], capture_output=True, text=True).stdout.splitlines()
 hook_commits = [l.split()[0] for l in hooks if " verif hook:" in l]
 man = {
